@@ -68,6 +68,21 @@ def h_eof(B, cls="EOF", n=4, p=2, k=2, flags=None, weights=False, layout="2d", s
     B.eq("singular_values() == norms", model.singular_values().data, model.data["norms"].data)
 
 
+def _hilbert_matrix(n):
+    """discrete Hilbert transform of length n as a matrix (DFT definition of the analytic signal; independent of
+    scipy.signal and of xeofs): Im(analytic signal of x) == K x"""
+    h = np.zeros(n)
+    h[0] = 1.0
+    if n % 2 == 0:
+        h[n // 2] = 1.0
+        h[1 : n // 2] = 2.0
+    else:
+        h[1 : (n + 1) // 2] = 2.0
+    K = np.imag(np.fft.ifft(np.fft.fft(np.eye(n), axis=0) * h[:, None], axis=0))
+    K[np.abs(K) < 1e-15] = 0.0
+    return K
+
+
 def h_hilbert(B, n=4, p=2, k=2, flags=None):
     flags = dict(flags or {})
     X, dim, fdims = M.make_input(B, "2d", n, p, False, flags)
@@ -78,6 +93,10 @@ def h_hilbert(B, n=4, p=2, k=2, flags=None):
     A = model.data["input_data"].transpose("sample", "feature").data
     B.eq("(a) Re(decomposed matrix) == centred oracle M(X)", np.real(A), Mor - Mor.mean(axis=0))
     B.eq("(a) decomposed matrix is column-centred", A.mean(axis=0), np.zeros(p))
+    # imaginary part: the Hilbert transform of the centred real part along the sample axis, re-centred
+    Mc = Mor - Mor.mean(axis=0)
+    Him = _hilbert_matrix(n) @ Mc
+    B.eq("(a) Im(decomposed matrix) == re-centred discrete Hilbert transform of the centred oracle", np.imag(A), Him - Him.mean(axis=0))
     _core(B, model, A, n, True, centred=True)
 
 
@@ -142,9 +161,11 @@ def configs(tier):
         add("h_eof", f"ComplexEOF|solver={solver}", cls="ComplexEOF", n=4, p=3, k=2, solver=solver)
     add("h_hilbert", "HilbertEOF|n4p2k2", n=4, p=2, k=2)
     add("h_hilbert", "HilbertEOF|standardize", n=4, p=2, k=2, flags={"standardize": True})
+    add("h_hilbert", "HilbertEOF|odd length n3p2k2", n=3, p=2, k=2)
     add("h_eeof", "ExtendedEOF|n5p2|tau1|emb2", n=5, p=2, k=2, tau=1, embedding=2)
     add("h_eeof", "ExtendedEOF|n6p2|tau2|emb2", n=6, p=2, k=2, tau=2, embedding=2)
     if tier == "thorough":
         add("h_eeof", "ExtendedEOF|n6p2|tau1|emb3", n=6, p=2, k=2, tau=1, embedding=3)
+        add("h_hilbert", "HilbertEOF|odd length n5p2k2", n=5, p=2, k=2)
         add("h_eeof", "ExtendedEOF|standardize", n=5, p=2, k=2, tau=1, embedding=2, flags={"standardize": True})
     return out
